@@ -73,6 +73,39 @@ def run(ctx):
             ctx.violation("property_fails", "a callable predictor's values come back in a different order or value when batched", case, True)
         cases.append(f"(Build_pred_case {czl(gd['central'])} {czll(flat)} {bs} {czl(ham)} {czl(zero)})")
         metas.append(case)
+    # the predictor a search builds BY DEFAULT scores against the central state of the graph it runs on: a sequence of searches, in one
+    # process, on graphs that share a name and a size but not the central state (a library graph and its cosets); the best score reported
+    # for the first scored layer is compared with the least number of mismatches over the exact frontier
+    for _ in range(ctx.budget(25, 200)):
+        n = rng.randint(5, 8)
+        gens = [[(i + 1) % n for i in range(n)], [(i - 1) % n for i in range(n)], [1, 0] + list(range(2, n))]
+        for central in (list(range(n)), sorted(rng.randrange(2) for _ in range(n)), [rng.randrange(3) for _ in range(n)]):
+            gd = {"kind": "perm", "gens": gens, "central": central}
+            _, dist = G.ref_bfs(gd, [central])
+            start = list(rng.choice(sorted(dist)))
+            graph = G.make_graph(gd, {"bit_encoding_width": rng.choice(["auto", None])})
+            for mode in ("simple",):                 # the scoring rule of the simple mode (score a layer once it has beam_width states) is the one modelled in Beam.v
+                width = rng.choice([1, 2, 3])
+                r = graph.beam_search(start_state=start, beam_mode=mode, beam_width=width, max_steps=3)
+                layer = {tuple(start)}
+                seen_ = {tuple(start)}
+                for step in range(1, 4):
+                    layer = {G.act(gd, gi_, s_) for s_ in layer for gi_ in range(3)}
+                    if mode == "advanced":
+                        layer -= seen_                     # the advanced mode bans states it has already visited
+                        seen_ |= layer
+                    if tuple(central) in layer or tuple(start) == tuple(central) or not layer:
+                        break
+                    if len(layer) >= width:
+                        want_best = min(sum(1 for a_, b_ in zip(central, s_) if a_ != b_) for s_ in layer)
+                        key = step - 1 if mode == "simple" else step
+                        got_best = r.debug_scores.get(key)
+                        ctx.count("default_predictor_in_search_checked")
+                        if got_best is not None and int(got_best) != want_best:
+                            ctx.violation("property_fails", f"the default predictor of a {mode} beam search reports best score {got_best} at its first scored step; the least number of "
+                                          f"mismatches with the central state {central} over the frontier is {want_best}",
+                                          {"graph": gd, "start": start, "mode": mode, "width": width, "claim": "default_predictor_in_search"}, True)
+                        break
     ctx.sample(metas[0]); ctx.sample(metas[-1])
     bad = ctx.coq_failing("Base Predictor AlgoRun", "", "pred_case", cases, "check_pred_case", "pred", shard=300)
     ctx.cov["disagreements_checked"] = len(cases)
